@@ -24,7 +24,8 @@ class Hang(Exception):
     pass
 
 
-def run_case(n_sims: int, transport: list, faulty: int, index: int, kind: str, apis: list | None = None, timeout: float = 8.0) -> dict:
+def run_case(n_sims: int, transport: list, faulty: int, index: int, kind: str, apis: list | None = None, flavour: dict | None = None,
+             timeout: float = 8.0) -> dict:
     """transport[i] in {'local', 'remote'}; simulator `faulty` fails at its request `index` with `kind`;
     apis[i] = API version simulator i reports (None = 3.0; older ones are wrapped in adapters by mosaik)."""
     logfile = tempfile.mktemp(prefix="mosaik-verif-fault-", dir="/var/tmp")
@@ -34,7 +35,8 @@ def run_case(n_sims: int, transport: list, faulty: int, index: int, kind: str, a
         "R": {"cmd": f"%(python)s {os.path.join(VERIF, 'harness', 'remote_sim.py')} %(addr)s",
               "env": {"PYTHONPATH": os.pathsep.join(p for p in sys.path if p)}},
     }
-    res = {"n_sims": n_sims, "transport": transport, "faulty": faulty, "index": index, "kind": kind, "apis": apis}
+    # flavour: {"typ": simulator type of the faulty simulator, "exc": exception class it raises}
+    res = {"n_sims": n_sims, "transport": transport, "faulty": faulty, "index": index, "kind": kind, "apis": apis, "flavour": flavour}
     destroyed = io.StringIO()
     handler = logging.StreamHandler(destroyed)
     logging.getLogger("asyncio").addHandler(handler)
@@ -55,8 +57,10 @@ def run_case(n_sims: int, transport: list, faulty: int, index: int, kind: str, a
             world = mosaik.World(sim_config, asyncio_loop=loop, skip_greetings=True, mosaik_config={"stop_timeout": 1})
             ents = []
             for i in range(n_sims):
-                f = {"index": index, "kind": kind} if i == faulty else None
+                f = {"index": index, "kind": kind, "exc": (flavour or {}).get("exc")} if i == faulty else None
                 extra = {"api": apis[i]} if apis and apis[i] else {}
+                if i == faulty and flavour and flavour.get("typ"):
+                    extra["typ"] = flavour["typ"]
                 fac = world.start("L" if transport[i] == "local" else "R", sim_id=f"S{i}", logfile=logfile, fault=f, **extra)
                 ents.append(fac.M())
             for i in range(n_sims - 1):
@@ -218,7 +222,15 @@ def enumerate_cases(tier: str, rng):
         n, tr, faulty = c[0], c[1], c[2]
         apis = [None if i == faulty else rng.choice(["2.0", "2.2", "2.2"]) for i in range(n)]
         legacy.append(c + (apis,))
-    return base + legacy
+    # other simulator types and exception classes for the faulty simulator (in-process handlers treat some classes specially)
+    flavoured = []
+    for k, c in enumerate(cases):
+        if tier == "quick" and k % 4 != 1:
+            continue
+        n, tr, faulty = c[0], c[1], c[2]
+        typ = rng.choice(["hybrid", "hybrid", "event-based"] if faulty > 0 else ["hybrid"])
+        flavoured.append(c + (None, {"typ": typ, "exc": rng.choice(["TypeError", "TypeError", "KeyError", "RuntimeError"])}))
+    return base + legacy + flavoured
 
 
 def run_suite(driver, rng, tier: str) -> dict:
@@ -236,7 +248,7 @@ def run_suite(driver, rng, tier: str) -> dict:
         r["fault_reached"] = c[3] < nreq
         results.append(r)
         hist[f"{'remote' if c[1][c[2]] == 'remote' else 'local'}:{c[4]}:{r['outcome'].split(' ')[0]}" + ("" if r["fault_reached"] else ":no-fault") +
-             (":legacy-api neighbours" if len(c) > 5 else "")] += 1
+             (":legacy-api neighbours" if len(c) > 5 and c[5] else "") + (f":{c[6]['typ']}:{c[6]['exc']}" if len(c) > 6 and c[6] else "")] += 1
         vio.extend(judge(r))
         l, impl = model_line(r)
         lines.append(l)
@@ -251,7 +263,8 @@ def run_suite(driver, rng, tier: str) -> dict:
             "rule": ("fault enumeration on the real code: chains of 2 and 3 simulators, the faulty one failing at every request index 0-7 "
                      "(setup_done, step, get_data ...; indices beyond the run are fault-free controls); in-process: exception in the handler; "
                      "subprocess (all local but the faulty one, and all remote): exception in the handler and process exit (os._exit); "
-                     "a third of the cases (quick) / all cases (thorough) again with the healthy simulators reporting API version 2.0 / 2.2 (adapter-wrapped)" +
+                     "a third of the cases (quick) / all cases (thorough) again with the healthy simulators reporting API version 2.0 / 2.2 (adapter-wrapped); "
+                     "a quarter (quick) / all (thorough) of the in-process cases again with a hybrid or event-based faulty simulator raising TypeError / KeyError / RuntimeError" +
                      ("; remote cases sampled (14)" if tier == "quick" else "; all remote cases"))}
 
 
